@@ -22,8 +22,9 @@
 
    i.e. the builder keeps every eaten token, in order, under the root it builds -- provided the two
    preconditions hold that the code silently relies on:
-     earlyReturn  a finish_node arrived while `children` was empty: the code returns WITHOUT popping
-                  `parents`, so every later finish_node closes the wrong node;
+     earlyReturn  number of finish_node calls that arrived while `children` was empty: the code returns
+                  WITHOUT popping `parents`, so every later finish_node closes the wrong node (EarlyOK: none, or
+                  exactly one in a stream that starts with parse_chunk's Block -- shown harmless by TLC);
      crossed      a Block's backward trivia absorption went below the start index of an enclosing
                   open node, which leaves that node's start index stale (mis-nesting, and a panic
                   in `drain` once the stale index exceeds the length).
